@@ -2,6 +2,13 @@
 From Coq Require Import ZArith List Field Ring Lia.
 From BL Require Import Base.Ops Base.Laws.
 Import ListNotations.
+Set Default Proof Using "All".
+
+Lemma map_nth_lt {A B} (f : A -> B) (l : list A) (k : nat) (dA : A) (dB : B) :
+  (k < length l)%nat -> nth k (map f l) dB = f (nth k l dA).
+Proof.
+  intros Hk. rewrite (nth_indep _ dB (f dA)) by (rewrite map_length; exact Hk). apply map_nth.
+Qed.
 
 Section Sums.
 Variable O : Ops.
